@@ -53,10 +53,12 @@ ObsInit(C) ==
     excused   |-> [e \in Ents |-> FALSE],   \* a limit fault configured Ignore/Suspend has occurred
     cancel    |-> [e \in Ents |-> FALSE],   \* the user cancelled at e
     cancelEff |-> FALSE,                    \* ... before the delivery was complete
+    cancelAtR |-> FALSE,                    \* a user's cancel has taken effect at the (current) receiver
     sinceCancel |-> [e \in Ents |-> 0],
     repCancel |-> [e \in Ents |-> FALSE],   \* e reported the cancel condition
     ncancel   |-> 0,
     nsusp     |-> 0,
+    everSusp  |-> [e \in Ents |-> FALSE],   \* e has been suspended by the user at some time (current incarnation)
     suspTime  |-> 0,                        \* time passed while an entity was suspended by the user
     nfaults   |-> 0,                        \* link faults so far (drop, dup, reorder, delay, corrupt)
     adversary |-> FALSE,                    \* PDUs not produced by the peer were injected
@@ -222,7 +224,9 @@ Step(o, ev, C) ==
       ownerK(k) == IF k = "eof" THEN "S" ELSE "R"
       \* progress that resets the count
       \* progress that resets the count
-      resetK(k) == IF k = "eof" THEN (Delivered(ev, "S", "ACK") /\ ev.pin.of = "EOF") \/ isCmd("S", "Cancel")
+      \* (a user's cancel is not progress of the peer: the EOF(cancel) it triggers goes out at once, restarts the
+      \*  period, and the expirations counted so far stay counted)
+      resetK(k) == IF k = "eof" THEN (Delivered(ev, "S", "ACK") /\ ev.pin.of = "EOF")
                                       \/ (\E x \in faultInds : x.e = "S")
                    ELSE IF k = "fin" THEN spawned \/ isCmd("R", "Cancel") \/ (\E x \in faultInds : x.e = "R")
                                           \/ (finOut # {} /\ o.finPdu.set /\ (CHOOSE q \in finOut : TRUE).cond # o.finPdu.cond)
@@ -241,9 +245,13 @@ Step(o, ev, C) ==
                         IF k = "nak" /\ Cardinality(o.held) # y.mark
                            THEN [n |-> 1, nr |-> -1, since |-> 0, gapok |-> TRUE, mark |-> Cardinality(o.held), sameInstant |-> TRUE]
                         ELSE IF y.n > 0 /\ y.since = 0 /\ ~resetK(k) /\ ~resumeK(k) /\ dt = 0 /\ x.sameInstant THEN y
-                        ELSE [n |-> y.n + 1, nr |-> IF y.nr >= 0 THEN y.nr + 1 ELSE -1, since |-> 0,
-                              gapok |-> y.gapok /\ (y.n = 0 \/ y.nr = 0 \/ y.since >= toK(k)), mark |-> y.mark,
-                              sameInstant |-> TRUE]
+                        \* the original, or a retransmission a full period after the previous emission: counted
+                        ELSE IF y.n = 0 \/ y.nr = 0 \/ y.since >= toK(k)
+                           THEN [n |-> y.n + 1, nr |-> IF y.nr >= 0 THEN y.nr + 1 ELSE -1, since |-> 0,
+                                 gapok |-> y.gapok, mark |-> y.mark, sameInstant |-> TRUE]
+                        \* an emission before the period is over answers an event (a repeated EOF, a prompt, the user's
+                        \* cancel): every emission restarts the period, but it is none of the retransmissions the limit counts
+                        ELSE [y EXCEPT !.since = 0, !.sameInstant = TRUE]
                    ELSE [y EXCEPT !.since = Min2(y.since + adv, Bound(C) + 1),
                                   !.sameInstant = y.sameInstant /\ dt = 0]]
 
@@ -307,7 +315,13 @@ Step(o, ev, C) ==
              \* ... and nothing is asked for that was already held when the list could have been built
              \cup {"C08:NakAsksForHeld" : p \in {q \in nakOut : o.rxEof /\ ReqUnits({x \in nakReqs(q) : x[1] < x[2]}) \cap o.basis # {}}}
 
-      v10 == (IF C.isfile /\ (o.ncancel > 0 \/ cancelNow) /\ ev.dest.st # "absent" /\ ~delivered2 THEN {"C10:NoPartialFile"} ELSE {})
+      \* the user's cancel takes effect at the receiver when it is issued there, or when the sender's EOF(cancel) gets there
+      cancelAtR2 == IF spawned THEN FALSE
+                    ELSE o.cancelAtR \/ isCmd("R", "Cancel")
+                         \/ (o.cancel["S"] /\ Delivered(ev, "R", "EOF") /\ ev.res = "ok" /\ ev.pin.cond = "CancelReceived")
+      v10 == (IF firstDelivery /\ o.cancelAtR /\ ~spawned THEN {"C10:DeliveredAfterCancel"} ELSE {})
+             \cup
+             (IF C.isfile /\ (o.ncancel > 0 \/ cancelNow) /\ ev.dest.st # "absent" /\ ~delivered2 THEN {"C10:NoPartialFile"} ELSE {})
              \cup {"C10:CancelEnds" : e \in {x \in Ents : cancel2[x] /\ ~ended2[x] /\ sinceCancel2[x] > Bound(C)}}
              \* (a transfer that completed before the cancel took effect at the peer reports success)
              \* (no return path: a receiver cancelling an unacknowledged transfer without closure cannot tell the sender)
@@ -340,7 +354,19 @@ Step(o, ev, C) ==
              [] OTHER -> kinds \cap {"Abandon", "Suspended"} = {}
       \* (once a fault has been ignored / has suspended the entity its counters stay saturated; only the
       \* first declaration is held to the exact count)
+      \* a cancelled send transaction that hits a limit is abandoned without a Fault indication
+      \* (send.rs:288-299): the same exactness is demanded of that declaration
+      limitAbandon == {x \in inds : x.k = "Abandon" /\ x.e = "S" /\ ev.a = "S_Timeout" /\ isAck
+                                      /\ (o.cancel["S"] \/ o.everFault["S"]) /\ ~(\E y \in faultInds : y.e = "S")}
+      \* (after a limit fault every further expiry ends the transaction; the inactivity count of a cancelled sender
+      \*  runs from the cancel, send.rs:674, or from the last PDU of the peer)
+      abandonOk(x) ==
+        \/ o.everFault["S"]
+        \/ ((countOk(o.tx["eof"]) \/ o.tx["eof"].n >= C.limit) /\ o.tx["eof"].since >= ToAck(C))
+        \/ o.idle["S"] >= C.limit * ToInact(C)
+        \/ o.sinceCancel["S"] >= C.limit * ToInact(C)
       v17 == {"C17:FaultExact" : x \in {y \in faultInds : ~o.adversary /\ ~o.excused[y.e] /\ ~faultOk(y)}}
+             \cup {"C17:FaultExact" : x \in {y \in limitAbandon : ~o.adversary /\ ~o.excused[y.e] /\ ~abandonOk(y)}}
              \cup {"C17:HandlerAsConfigured" : x \in {y \in faultInds : ~handlerOk(y)}}
 
       v18 == {"C18:OneWay" : p \in {q \in rOut : isUnack /\ q.k \in {"ACK", "NAK", "KeepAlive"}}}
@@ -362,6 +388,9 @@ Step(o, ev, C) ==
       quietKinds == {"Metadata", "Data", "EOF", "NAK", "Finished"}
       v19 == {"C19:QuietWhileSuspended" : p \in {q \in outs : snd \in Ents /\ o.susp[snd] /\ susp2[snd] /\ q.k \in quietKinds}}
              \cup {"C19:NoFaultWhileSuspended" : x \in {y \in faultInds : o.susp[y.e] /\ susp2[y.e]}}
+             \* "timers counting only un-suspended time": the counts and gaps of faultOk exclude suspended time, so a
+             \* limit fault of a once-suspended entity that they do not justify was helped by the suspension
+             \cup {"C19:TimersFrozen" : x \in {y \in faultInds : o.everSusp[y.e] /\ ~o.adversary /\ ~o.excused[y.e] /\ ~faultOk(y)}}
 
       progInd == {x \in inds : x.k \in {"Fault", "Resumed", "Abandon"}}
       v20 == {"C20:ReceiverProgress" : p \in {q \in kaOut : q.progress # Cardinality(o.held)}}
@@ -389,6 +418,7 @@ Step(o, ev, C) ==
               destAt |-> IF firstDelivery THEN ev.dest ELSE o.destAt,
               tree |-> ev.tree,
               idle |-> idle2, fp |-> fp2, pend |-> pend2, pendMeta |-> pendMeta2,
+              everSusp |-> [e \in Ents |-> IF e = "R" /\ spawned THEN FALSE ELSE o.everSusp[e] \/ isCmd(e, "Suspend")], cancelAtR |-> cancelAtR2,
               nEof |-> o.nEof + (IF eofNoErr # {} THEN 1 ELSE 0),
               nMeta |-> o.nMeta + (IF metaOut # {} THEN 1 ELSE 0),
               sprog |-> sprog2, round |-> round2,
